@@ -478,6 +478,15 @@ template <class E> struct Runner {
                 if (ok) printf("NOTE property=%s run=%llu reproduces only after the %zu earlier runs of its batch (state carried inside the code under test)\n", E::property(),
                                (unsigned long long) v.first, prelude.size());
             }
+            // The violation itself (class, locus, step) reproduces in all three executions but the event-log digests
+            // differ: the CODE UNDER TEST is not a function of its inputs (typically it read uninitialised memory, so
+            // incidental output bytes differ from process to process).  That is reported as the violation it is, with a
+            // note; only a violation that does not reproduce is a harness matter.
+            bool digest_unstable = false;
+            if (!ok && same_violation(orig, a) && same_violation(orig, b) && a.step == orig.step && b.step == orig.step && orig.vclass != "crash") {
+                ok = true; digest_unstable = true;
+                printf("NOTE property=%s run=%llu the violation reproduces in a forked child and in a fresh process (same class, locus and step) but incidental outputs differ between executions: the code under test is not deterministic for identical inputs\n", E::property(), (unsigned long long) v.first);
+            }
             if (!ok) {
                 printf("HARNESS-NONDETERMINISM property=%s run=%llu sweep={%s,%s,%s} fork={%d,%s,%s,%s} exec={%d,%s,%s,%s}\n", E::property(),
                        (unsigned long long) v.first, orig.vclass.c_str(), orig.locus.c_str(), hex64(orig.digest).c_str(), a.violated, a.vclass.c_str(),
@@ -510,6 +519,7 @@ template <class E> struct Runner {
                 Json vi = Json::object();
                 vi["class"] = fin.vclass; vi["locus"] = fin.locus; vi["step"] = fin.step; vi["detail"] = fin.detail;
                 rf["violation"] = vi; rf["digest"] = hex64(fin.digest);
+                if (digest_unstable) rf["digest_unstable"] = true;
                 rf["original_ops"] = (uint64_t) plan.ops.size(); rf["minimised_ops"] = (uint64_t) minp.ops.size();
                 std::string path = opt.out_dir + "/replays/" + E::property() + "-" + opt.tag + "-" + std::to_string(opt.seed) + "-" + hex64(fin.digest).substr(0, 8) + ".json";
                 write_file(path, rf.dump(1));
@@ -589,7 +599,8 @@ template <class E> struct Runner {
         printf("replay %s: violated=%d class=%s locus=%s step=%d digest=%s (fresh process: violated=%d digest=%s)\n", opt.replay.c_str(), a.violated,
                a.vclass.c_str(), a.locus.c_str(), a.step, hex64(a.digest).c_str(), b.violated, hex64(b.digest).c_str());
         if (a.violated) printf("  %s\n", a.detail.c_str());
-        if (a.violated != b.violated || a.digest != b.digest || a.vclass != b.vclass) {
+        bool unstable_ok = rf.at("digest_unstable").boolean() && a.violated && b.violated && a.vclass == b.vclass && a.locus == b.locus;
+        if (!unstable_ok && (a.violated != b.violated || a.digest != b.digest || a.vclass != b.vclass)) {
             printf("HARNESS-NONDETERMINISM property=%s on replay\n", E::property());
             return 2;
         }
